@@ -603,6 +603,8 @@ def run_property(pid: str, tier: str, only_sub: Optional[str] = None) -> int:
 
 def _replay_entry(path):
     try:
+        if os.environ.get("VERIF_VERBOSE") != "1":
+            sys.stdout = open(os.devnull, "w")
         return replay_file(path, quiet=True)
     except BaseException as e:  # noqa
         return "error", "".join(traceback.format_exception(type(e), e, e.__traceback__))[-2000:]
